@@ -281,6 +281,28 @@ PROPS = {
             "that the handler-visible header list is the sent list minus the consumed fields (C14 covers the removal operations)",
         ],
     },
+    "C06": {
+        "title": "Response serialisation (duplicate guards, copy and framing-length part)",
+        "design_ref": "DESIGN.md section 4 (C06)",
+        "technique": "Verus on let-regions of write_http_response (the three duplicate-field guards, from the proved HeaderList lookups), on "
+                     "ResponseBody::len / is_empty, copy_async and copy_chunked_async; bounded stand-in c06 for the format!-built head",
+        "level_text": "Deductive, unbounded: a response carrying one or more content-type (when a type is set) / content-length / "
+                      "transfer-encoding fields of its own is refused by the guard statements before any byte is written; ResponseBody::len "
+                      "is the number of body bytes for in-memory variants, the declared length for file variants and None exactly for event "
+                      "streams; a known-length body is copied byte for byte with the count returned (copy_async), an unknown-length body is "
+                      "sent in valid chunked coding (C07). Bounded (never counted as proved): status line, automatic fields, field order and "
+                      "parse-back, via the real write_http_response into a short-writing writer and an independent parser.",
+        "level_note": "write_http_response builds its head with format!/write! (outside both verifiers): the head clauses are exercised only by "
+                      "the bounded stand-in; the guard regions are statements copied verbatim into wrapper functions.",
+        "verus": ["respguard", "copy", "chunked"],
+        "verus_thorough": [],
+        "kani": [],
+        "witness": "c06",
+        "assumptions": ["as C14 for the HeaderList lookups", "as C07 / C09 for the I/O contracts",
+                        "the guard regions are found by the header-name literal they contain (restructuring gives UNDECIDED and the bounded stand-in decides)"],
+        "not_covered": ["status line / reason phrase / automatic field emission and ordering (format!, write!)", "file and event-stream body sources",
+                        "that `num_copied != body_len` is reported (short body file) -- see C08 not_covered"],
+    },
 }
 
 NOT_APPLICABLE = {}
